@@ -4,3 +4,9 @@ From Coq Require Import List String.
 From BV Require Import Model.CodecsFieldSrc Gen.C18FieldSrc.
 Lemma field_codec_sources_checked : field_codec_sources_src = field_codec_sources.
 Proof. reflexivity. Qed.
+Lemma parser_entry_facts_checked : parser_entry_facts_src = parser_entry_facts.
+Proof. reflexivity. Qed.
+Lemma parsers_plain_recorded : parsers_plain parser_entry_facts = true.
+Proof. vm_compute. reflexivity. Qed.
+Lemma parsers_plain_checked : parsers_plain parser_entry_facts_src = true.
+Proof. rewrite parser_entry_facts_checked. exact parsers_plain_recorded. Qed.
